@@ -17,7 +17,8 @@ C  code -> spec: Name.to_str / to_canonical_uri / Component.to_str / to_canonica
    Name.to_bytes outputs on the enumerated components and on random larger names (0..8 components, types
    1..65535, arbitrary bytes, digests, typed numbers 0..2^64-1, values up to 300 bytes) are parsed back by
    the reference INSIDE TLC (NameUriJudge); ordering / equality / is_prefix matrices of random name sets are
-   compared with NameLess / PrefixByComponents.
+   compared with NameLess / PrefixByComponents; Name.is_prefix is called in all nine combinations of argument
+   forms (component list / wire / URI on either side), also on names crossing the 253-byte Name length boundary.
 """
 import json, os, time, traceback
 from concurrent.futures import ThreadPoolExecutor
@@ -272,18 +273,23 @@ def _name_inputs(Name, Component, jname, how):
     return Name.to_canonical_uri(comps)
 
 
+FORM_NAMES = ('list', 'wire', 'uri')
+FORM_COMBOS = [(a, b) for a in range(3) for b in range(3)]
+
+
 def matrices(jnames):
-    """what the library / Python says about all pairs of a list of abstract names"""
+    """what the library / Python says about all pairs of a list of abstract names.  `prefix` holds one matrix
+    per combination of argument forms of Name.is_prefix (component list / wire / URI on either side)."""
     Name, Component = _lib()
     lists = [[bytes(Component.from_bytes(bytes(c['v']), c['t'])) for c in n] for n in jnames]
     cat = [b''.join(x) for x in lists]
     k = len(lists)
+    forms = [[_name_inputs(Name, Component, n, how) for how in range(3)] for n in jnames]
     return {'less': [[lists[i] < lists[j] for j in range(k)] for i in range(k)],
             'vless': [[cat[i] < cat[j] for j in range(k)] for i in range(k)],
             'eq': [[lists[i] == lists[j] for j in range(k)] for i in range(k)],
-            'prefix': [[bool(Name.is_prefix(_name_inputs(Name, Component, jnames[i], (i + j) % 3),
-                                            _name_inputs(Name, Component, jnames[j], (i + 2 * j) % 3)))
-                        for j in range(k)] for i in range(k)]}
+            'prefix': [[[bool(Name.is_prefix(forms[i][a], forms[j][b])) for j in range(k)] for i in range(k)]
+                       for a, b in FORM_COMBOS]}
 
 
 def replay_sorted_names(rec):
@@ -295,11 +301,16 @@ def replay_sorted_names(rec):
     for i in range(k):
         pre = {j - 1 for j in rec['prefix'][i]}
         for j in range(k):
-            for field, want in (('less', i < j), ('vless', i < j), ('eq', i == j), ('prefix', j in pre)):
+            for field, want in (('less', i < j), ('vless', i < j), ('eq', i == j)):
                 if m[field][i][j] != want and field not in bad:
                     bad[field] = 'a=%s b=%s: library %s=%s, reference %s' % (
                         json.dumps(names[i]), json.dumps(names[j]), field, m[field][i][j], want)
-    return bad, 4 * k * k
+            for f, (a, b) in enumerate(FORM_COMBOS):
+                if m['prefix'][f][i][j] != (j in pre) and 'prefix' not in bad:
+                    bad['prefix'] = 'is_prefix(a as %s, b as %s) a=%s b=%s: library %s, reference %s' % (
+                        FORM_NAMES[a], FORM_NAMES[b], json.dumps(names[i]), json.dumps(names[j]),
+                        m['prefix'][f][i][j], j in pre)
+    return bad, 12 * k * k
 
 
 def replay_sorted_comps(rec):
@@ -500,6 +511,19 @@ def rand_related_names(rng, k):
     return out
 
 
+def rand_long_related(rng):
+    """names whose encoded value crosses the 253-byte boundary (Length field of the Name TLV 1 -> 3 bytes) on one
+    or both sides of a prefix pair: short stem, stem + long component, that + one more, a sibling differing in
+    the last byte, an unrelated long name, the stem's first component alone"""
+    stem = rand_name(rng, True, maxlen=2) or [{'t': 8, 'v': [97]}]
+    stem = [c for c in stem if len(c['v']) < 100][:2] or [{'t': 8, 'v': [97]}]
+    n = rng.choice([236, 244, 247, 248, 249, 250, 251, 252, 253, 256, 300])
+    big = {'t': rng.choice([8, 8, 32, 253]), 'v': [rng.choice(b'abcdefghij0123456789') for _ in range(n)]}
+    sib = {'t': big['t'], 'v': big['v'][:-1] + [big['v'][-1] ^ 1]}
+    tail = {'t': 8, 'v': list(rng.randbytes(rng.randint(0, 4)))}
+    return [stem, stem + [big], stem + [big, tail], stem + [sib], [big], stem[:1], stem + [tail], []]
+
+
 ESC_POOL = ['a', 'B', '7', '-', '.', '_', '~', '=', '%', '%2', '%2F', '%zz', '%41', '/', ' ', ':', '?', '#', '\t',
             'é', '名', '😀', 'seg', 'seg=', 'off=', 'v=', 't=', 'seq=', 'sha256digest=', 'params-sha256=', '8=',
             '32=', '0=', '65535=', '65536=', '253=', '12', 'ab', 'AB', '0f', '\x00', '\x7f', '+', '..']
@@ -623,6 +647,9 @@ def _run(ctx, pool, t0, nr, nq):
             rnd.append(safe(ctx, record_esc, t, {'k': 'esc', 'raw': codes(t)}))
         for _ in range(ctx.pick(250, 3000)):
             ns = rand_related_names(rng, rng.randint(4, 9))
+            rnd.append(safe(ctx, record_pairs, ns, {'k': 'pairs', 'names': ns}))
+        for _ in range(ctx.pick(25, 250)):
+            ns = rand_long_related(rng)
             rnd.append(safe(ctx, record_pairs, ns, {'k': 'pairs', 'names': ns}))
         for _ in range(ctx.pick(100, 1000)):
             cs = [c for n in rand_related_names(rng, 8) for c in n][:12]
